@@ -1537,6 +1537,7 @@ pub fn gen_avg(rng: &mut Rng) -> AvgCase {
                 short_pm: 300,
                 eintr_pm: 100,
                 seed: rng.next_u64(),
+                hard: None,
             }
         } else {
             ReadFaults::default()
